@@ -92,6 +92,9 @@ pub enum HF {
     Raw(Vec<u8>),
     /// ACK covering what the puppet really received in that space (keeps the victim calm)
     GoodAck,
+    /// ACK frame written field by field (first range, then gap/length pairs), so that ranges may run
+    /// below packet number 0 or overlap
+    RawAck { largest: u64, delay: u64, first: u64, pairs: Vec<(u64, u64)>, ecn: bool },
 }
 
 #[derive(Serialize, Deserialize, Clone, Debug, PartialEq)]
@@ -721,7 +724,7 @@ impl<'a> Run<'a> {
                     as_legal = HF::Legal(f.clone());
                     &as_legal
                 }
-                (true, HF::Raw(_)) => continue,
+                (true, HF::Raw(_)) | (true, HF::RawAck { .. }) => continue,
                 _ => it,
             };
             match it {
@@ -740,6 +743,20 @@ impl<'a> Run<'a> {
                         if last_no_len {
                             break;
                         }
+                    }
+                }
+                HF::RawAck { largest, delay, first, pairs, ecn } => {
+                    v.push(if *ecn { 0x03 } else { 0x02 });
+                    wire::put_var(&mut v, *largest);
+                    wire::put_var(&mut v, *delay);
+                    wire::put_var(&mut v, pairs.len() as u64);
+                    wire::put_var(&mut v, *first);
+                    for (g, l) in pairs {
+                        wire::put_var(&mut v, *g);
+                        wire::put_var(&mut v, *l);
+                    }
+                    if *ecn {
+                        v.extend_from_slice(&[1, 2, 3]);
                     }
                 }
                 HF::Raw(b) => v.extend_from_slice(b),
@@ -1385,6 +1402,7 @@ fn arb_hf() -> impl Strategy<Value = HF> {
         20 => arb_frame().prop_map(HF::Legal),
         2 => Just(HF::GoodAck),
         1 => prop::collection::vec(any::<u8>(), 1..40).prop_map(HF::Raw),
+        2 => (prop_oneof![0u64..40, arb_v62()], 0u64..1000, prop_oneof![0u64..12, arb_v62()], prop::collection::vec((0u64..8, 0u64..8), 0..6), prop::bool::weighted(0.2)).prop_map(|(largest, delay, first, pairs, ecn)| HF::RawAck { largest, delay, first, pairs, ecn }),
     ]
 }
 
